@@ -975,7 +975,9 @@ def chunk_random(args):
             sess.event(ev)
             nconn = 1
         for _ in range(n):
-            live = sorted(sess.auto.conn)
+            # only registered connections can deliver anything
+            live = sorted(i for i, c in sess.sim.conns.items()
+                          if c in sess.sim.s.clients)
             r = rng.random()
             if (r < 0.08 and nconn < 3) or not live:
                 if nconn >= 3:
@@ -1183,6 +1185,7 @@ class Net:
         self.client_conn = ClientConn('client', log, self)
         self.server_client = self.server.new_client(0)
         self.blocked_workers = set()
+        self.errors_at_server = []
 
     # -- moving messages -----------------------------------------------------
     def _flush(self):
@@ -1231,6 +1234,8 @@ class Net:
         elif tr[0] == 'up':
             up, upc, low, lowc = self.links[tr[1]]
             item = upc.inbox.popleft()
+            if up is self.server and item[0].name == 'ERROR':
+                self.errors_at_server.append(item[1])
             up.deliver_item(upc, up.D.BELOW, item)
         elif tr[0] == 'down':
             up, upc, low, lowc = self.links[tr[1]]
@@ -1336,7 +1341,51 @@ def bubbling_case(seed, nmanagers, depth, how, exc_name, with_ok_first):
         len(m.system_errors) for m in net.managers)
     out['transitions'] = len(net.trace)
     # the ERROR message as it arrived at the server, for the model
+    srv = net.server.s
+    mb = [m for t, (m, c) in srv.tasks.items() if t == tid]
+    out['mailbox'] = mb[0] if mb else None
+    out['errors_at_server'] = [
+        (p[0], msg in p[1]) if isinstance(p, tuple) else ('sys', False)
+        for p in net.errors_at_server]
+    out['hops'] = 1 if nmanagers else 0
     return out
+
+
+def swallow_cases():
+    """The `except Exception` branch of the real
+    `Worker._try_step_next_ready_task` for the four combinations (plain
+    RuntimeError?, cancel of an ancestor processed during the step?)."""
+    import bqskit.runtime.worker as wmod
+    from bqskit.runtime.task import RuntimeTask
+    from bqskit.runtime.address import RuntimeAddress
+    res = []
+    for plain in (0, 1):
+        for canc in (0, 1):
+            net = Net(random.Random(0), 0, 1)
+            w = net.workers[0]
+            anc = RuntimeAddress(-1, 5, 0)
+            task = RuntimeTask((_raise_during_cancel, (plain, canc), {}),
+                               RuntimeAddress(w._id, 0, 0), 5, (anc,))
+            w._add_task(task)
+            wmod._worker = w
+            del w._conn.sent[:]
+            w._try_step_next_ready_task()
+            errs = [p for (m, p) in w._conn.sent if m.name == 'ERROR']
+            if errs:
+                got = f'error {errs[0][0]} ' + (
+                    '9' if 'swallow-probe' in errs[0][1] else '?')
+            else:
+                got = 'swallowed'
+            res.append((f'bubble 5 1 0 {canc} {plain} 9', got))
+    return res
+
+
+def _raise_during_cancel(plain, canc):
+    import bqskit.runtime.worker as wmod
+    from bqskit.runtime.address import RuntimeAddress
+    if canc:    # what the incoming thread does on CANCEL of the root task
+        wmod._worker._cancelled_task_ids.add(RuntimeAddress(-1, 5, 0))
+    raise (RuntimeError if plain else ValueError)('swallow-probe')
 
 
 def chunk_bubbling(args):
@@ -1350,3 +1399,488 @@ def chunk_bubbling(args):
             res.append({'args': a, 'harness_error':
                         ''.join(traceback.format_exception(e))[-1500:]})
     return res
+
+
+# ======================================================= client side (Compiler)
+class _Capture(logging.Handler):
+    def __init__(self):
+        super().__init__(level=0)
+        self.got = []
+
+    def emit(self, record):
+        self.got.append(record.getMessage())
+
+
+def _log_payload(x, as_tuple=False):
+    """What the worker's record factory sends: a pickled LogRecord, or the
+    pickled (name, level, text) fallback."""
+    if as_tuple:
+        return pickle.dumps(('c13.client', logging.WARNING, f'log-{x}'))
+    return pickle.dumps(logging.LogRecord(
+        'c13.client', logging.WARNING, __file__, 1, f'log-{x}', None, None))
+
+
+def client_checks(ck_rng, thorough):
+    """Real `Compiler` methods against a scripted peer.  Returns
+    (driver_lines, impl_outcomes, findings, stats)."""
+    from bqskit.compiler.status import CompilationStatus as CS
+    from bqskit.runtime.message import RuntimeMessage as M
+    from bqskit.ir.circuit import Circuit
+    logging.disable(logging.NOTSET)
+    logger = logging.getLogger('c13.client')
+    logger.setLevel(logging.DEBUG)
+    logger.propagate = False
+    cap = _Capture()
+    logger.addHandler(cap)
+    findings, stats = [], collections.Counter()
+    lines, impl = [], []
+    stat_name = {'running': CS.RUNNING, 'done': CS.DONE,
+                 'unknown': CS.UNKNOWN}
+
+    def wire(tok, x):
+        if tok == 'L':
+            return (M.LOG, _log_payload(x, as_tuple=(x % 2 == 1)))
+        if tok == 'E':
+            return (M.ERROR, f'boom-{x}')
+        if tok == 'R':
+            return (M.RESULT, ('R', x))
+        if tok == 'K':
+            return (M.CANCEL, None)
+        return (M.STATUS, stat_name[x])
+
+    # (1) `_recv_handle_log_error` on every message sequence of length <= n
+    toks = [('L', 3), ('L', 4), ('E', 5), ('R', 6), ('K', None),
+            ('S', 'done')]
+    n = 5 if thorough else 4
+    for k in range(0, n + 1):
+        for seq in it.product(toks, repeat=k):
+            c = FakeConn('peer', [])
+            comp = new_client_compiler(c)
+            for tok, x in seq:
+                c.inbox.append(wire(tok, x))
+            del cap.got[:]
+            try:
+                msg, payload = comp._recv_handle_log_error()
+                if msg == M.RESULT:
+                    got = f'returned R.0.{payload[1]}'
+                elif msg == M.CANCEL:
+                    got = 'returned K.0'
+                else:
+                    got = f'returned S.0.{payload.name.lower()}'
+            except RuntimeError as e:
+                t = str(e)
+                got = f'raised {t.split("-")[1]}' if t.startswith('boom-') \
+                    else f'raised ?{t}'
+            except EOFError:
+                got = 'blocked'
+            line = 'recv ' + ' '.join(
+                tok if x is None else f'{tok} {x}' for tok, x in seq)
+            lines.append(line)
+            impl.append(got)
+            stats['recv_sequences'] += 1
+            # direct oracle: logs before the outcome are passed through, the
+            # first ERROR raises with its text, otherwise the LAST non-log
+            # message is returned; only logs -> keeps waiting
+            logs_before = []
+            exp = 'blocked'
+            for tok, x in seq:
+                if tok == 'L':
+                    logs_before.append(f'log-{x}')
+                elif tok == 'E':
+                    exp = f'raised {x}'
+                    break
+                else:
+                    exp = 'returned ' + (
+                        f'R.0.{x}' if tok == 'R' else
+                        'K.0' if tok == 'K' else f'S.0.{x}')
+            if got != exp or cap.got != logs_before:
+                findings.append(Finding(
+                    'client-recv-loop',
+                    f'_recv_handle_log_error on {line}: got {got} with logs '
+                    f'{cap.got}, the property requires {exp} with logs '
+                    f'{logs_before}', {'sequence': line}, True))
+
+    # (2) the API calls
+    class Peer(FakeConn):
+        __slots__ = ('replies',)
+
+        def send(self, m):
+            self.sent.append(m)
+            self.inbox.extend(self.replies)
+            self.replies = []
+
+    def call(method, replies, stale=()):
+        c = Peer('peer', [])
+        c.replies = list(replies)
+        c.inbox.extend(stale)
+        comp = new_client_compiler(c)
+        tid = uuid.uuid4()
+        del cap.got[:]
+        try:
+            if method == 'submit':
+                r = comp.submit(Circuit(1), [_passes()[1]()])
+                return ('returned', r, list(cap.got), comp, c)
+            r = getattr(comp, method)(tid)
+            return ('returned', r, list(cap.got), comp, c)
+        except RuntimeError as e:
+            return ('raised', e, list(cap.got), comp, c)
+
+    reply_for = {'status': (M.STATUS, CS.DONE), 'result': (M.RESULT, ('R', 9)),
+                 'cancel': (M.CANCEL, None)}
+    want = {'status': CS.DONE, 'result': ('R', 9), 'cancel': True}
+    for method in ('status', 'result', 'cancel'):
+        for nlogs in (0, 1, 3):
+            logs = [(M.LOG, _log_payload(20 + i, i % 2 == 1))
+                    for i in range(nlogs)]
+            # reply preceded by logs -> value; logs passed through
+            o = call(method, logs + [reply_for[method]])
+            stats['client_calls'] += 1
+            if o[0] != 'returned' or o[1] != want[method] or o[2] != [
+                    f'log-{20 + i}' for i in range(nlogs)]:
+                findings.append(Finding(
+                    f'client-call-mapping:{method}',
+                    f'Compiler.{method} with {nlogs} LOG before the reply: '
+                    f'{o[0]} {o[1]!r} logs={o[2]}', {'method': method}, True))
+            # ERROR (after logs) -> RuntimeError carrying the text
+            o = call(method, logs + [(M.ERROR, 'Traceback ... ValueError: '
+                                      + ORIGINAL + method)])
+            stats['client_calls'] += 1
+            if o[0] != 'raised' or (ORIGINAL + method) not in chain_text(o[1]):
+                findings.append(Finding(
+                    f'client-error-lost:{method}',
+                    f'Compiler.{method}: ERROR reply did not surface as a '
+                    f'RuntimeError carrying the message: {o[0]} {o[1]!r}',
+                    {'method': method}, True))
+            elif (ORIGINAL + method) not in str(o[1]):
+                stats['error_text_only_in_cause_chain'] += 1
+        # a reply of the wrong kind is not returned as a value
+        wrong = reply_for['cancel' if method != 'cancel' else 'status']
+        o = call(method, [wrong])
+        stats['client_calls'] += 1
+        if o[0] != 'raised':
+            findings.append(Finding(
+                f'client-wrong-kind-accepted:{method}',
+                f'Compiler.{method} returned {o[1]!r} for a reply of the '
+                'wrong kind', {'method': method}, True))
+        # connection closed instead of a reply -> RuntimeError (no hang)
+        o = call(method, [])
+        stats['client_calls'] += 1
+        if o[0] != 'raised':
+            findings.append(Finding(
+                f'client-eof-not-raised:{method}', 'EOF did not raise',
+                {'method': method}, True))
+    # a LOG that is already in the pipe when the next call starts (it arrived
+    # between two calls) must be passed through and not end the call
+    for method in ('status', 'result', 'cancel', 'submit'):
+        stale = [(M.LOG, _log_payload(30))]
+        o = call(method, [reply_for[method]] if method != 'submit' else [],
+                 stale)
+        stats['client_calls'] += 1
+        ok = o[0] == 'returned' and (method == 'submit'
+                                     or o[1] == want[method])
+        if not ok:
+            cause = o[1].__cause__ if o[0] == 'raised' else None
+            findings.append(Finding(
+                f'client-stale-log-kills-call:{method}:'
+                f'{type(cause).__name__}',
+                f'Compiler.{method} with a LOG record already waiting in the '
+                'pipe (it arrived after the previous call returned): '
+                f'_recv_log_error_until_empty treats the pickled payload as a '
+                f'LogRecord -> {type(cause).__name__}: {cause}; the call '
+                'fails with "Server connection unexpectedly closed." and '
+                'the connection is dropped',
+                {'method': method, 'pipe': 'LOG(pickled record) before the '
+                 'request is sent', 'conn_after': repr(o[3].conn)}, True))
+    # an ERROR already in the pipe surfaces at the next call with its text
+    for method in ('status', 'submit'):
+        o = call(method, [], [(M.ERROR, 'x ' + ORIGINAL + 'stale')])
+        stats['client_calls'] += 1
+        if o[0] != 'raised' or (ORIGINAL + 'stale') not in chain_text(o[1]):
+            findings.append(Finding(
+                f'client-stale-error-lost:{method}', 'stale ERROR lost',
+                {'method': method}, True))
+    logger.removeHandler(cap)
+    logging.disable(logging.CRITICAL)
+    return lines, impl, findings, stats
+
+
+# ====================================================== attached server (small)
+def attached_checks():
+    """AttachedServer shares the handlers; a client disconnect (and therefore
+    a 'Bad client' request) is a shutdown there.  Oracle: no handler raises
+    for the request kinds of a single well-behaved client."""
+    from bqskit.runtime.message import RuntimeMessage as M
+    findings, stats = [], collections.Counter()
+    evs = ['submit 0 0', 'submit 0 1', 'request 0 0', 'status 0 0',
+           'cancel 0 0', 'status 0 1', 'cancel 0 1', 'result 0 7',
+           'error 0 2', 'log 0 4', 'result 1 8']
+    for hist in it.product(evs, repeat=3):
+        sim = Sim(2, kind='attached')
+        r = Runner(sim)
+        sim.new_client(0)
+        auto = Automaton(strict_errors=False)
+        auto.expected('connect 0')
+        for i, ev in enumerate(hist):
+            if not auto.wf(ev):
+                break
+            exp = auto.expected(ev)
+            cli, down, _ = r.render_log(r.apply(ev))
+            stats['attached_events'] += 1
+            if sim.system_errors or sim.escaped is not None:
+                findings.append(Finding(
+                    f'attached-handler-raised:{ev.split()[0]}',
+                    'AttachedServer handler raised: '
+                    + (sim.system_errors or [repr(sim.escaped)])[-1][-300:],
+                    {'history': list(hist[:i + 1])}, True))
+                break
+            if not sim.s.running:
+                # only a bad request may stop an attached server
+                if not (ev.startswith('request') and exp
+                        and exp[0].startswith('E.')):
+                    findings.append(Finding(
+                        f'attached-stopped:{ev.split()[0]}',
+                        'AttachedServer stopped on a good request',
+                        {'history': list(hist[:i + 1])}, True))
+                break
+            expf = [e for e in exp]
+            if cli != expf:
+                findings.append(Finding(
+                    f'attached-reply-differs:{ev.split()[0]}',
+                    f'AttachedServer answered {cli}, automaton {expf}',
+                    {'history': list(hist[:i + 1])}, True))
+                break
+    return findings, stats
+
+
+# ======================================================================== run
+class _Counted(set):
+    """`distinct_nontrivial` for tree exploration: every node of the history
+    tree is a distinct history; they are counted, not stored."""
+    extra = 0
+
+    def __len__(self):
+        return super().__len__() + self.extra
+
+
+FIRST = ['submit 0 0', 'request 0 0', 'status 0 0', 'cancel 0 0',
+         'disconnect 0', 'result 0 7', 'error 0 2', 'log 0 4']
+
+
+def replay_history(hist, out=sys.stdout):
+    _quiet()
+    sess = Session(strict_errors=True)
+    sess.ctl('reset')
+    for ev in hist:
+        alive = sess.event(ev)
+        rec = sess.records[-1]
+        print(f'{ev:<16} impl: [{rec["cli"]}] down [{rec["down"]}] '
+              f'raised={rec["raised"]}\n{"":<16} {rec["state"]}', file=out)
+        if not alive:
+            print(f'{"":<16} server is down: '
+                  + (sess.sim.system_errors or ['?'])[-1][-400:], file=out)
+            break
+    sess.compare()
+    for f in sess.findings:
+        print(f'  -> {f.sig}: {f.what}', file=out)
+    return sess.findings
+
+
+def run(ck: Check):
+    from bqskit.ir.circuit import Circuit  # noqa: F401 (import order)
+    import json
+    ck._distinct = _Counted()
+    thorough = ck.tier == 'thorough'
+    if ck.replay_path:
+        body = json.loads(open(ck.replay_path).read())
+        hist = body.get('replay', body).get('history')
+        if hist:
+            for f in replay_history(hist):
+                ck.violation(f.sig, f.what, f.replay, f.found)
+        return
+    drift = check_attr_lists()
+    if drift:
+        ck.coverage['constructor_attribute_drift'] = drift
+    proved = ck.lean_obligations()
+    _quiet()
+    ncpu = min(16, os.cpu_count() or 1)
+    all_findings: list[tuple] = []
+    stats = collections.Counter()
+
+    def absorb(res):
+        for st, fs in res:
+            stats.update(st)
+            all_findings.extend(fs)
+
+    evs = alphabet(2, 2, 2)
+    depth = 6 if thorough else 5
+    if thorough:
+        jobs = [([a, b, c], depth, False, True)
+                for a in FIRST for b in evs for c in evs]
+    else:
+        jobs = [([a, b], depth, False, True) for a in FIRST for b in evs]
+    ck.rng.shuffle(jobs)
+    ddepth = 10 if thorough else 7
+    djobs = [([a, b], ddepth, True, True) for a in FIRST for b in evs]
+    nrand = 100000 if thorough else 5000
+    per = 250
+    rjobs = [(ck.rng.randrange(1 << 30), per, 30, False, True)
+             for _ in range(nrand // per)]
+    mjobs = [(ck.rng.randrange(1 << 30), per, 30, True, True)
+             for _ in range(max(4, nrand // per // 5))]
+    bub = []
+    for seed in range(12 if thorough else 3):
+        for nm in (0, 1, 2):
+            for d in (0, 1, 2, 3):
+                for how in ('submit', 'map'):
+                    for exc in ('ValueError', 'RuntimeError', 'KeyError'):
+                        for okf in (False, True):
+                            bub.append((ck.rng.randrange(1 << 30), nm, d, how,
+                                        exc, okf))
+    bjobs = [bub[i::ncpu] for i in range(ncpu)]
+    with mp.Pool(ncpu) as pool:
+        r1 = pool.map_async(chunk_exhaustive, jobs, chunksize=1)
+        r2 = pool.map_async(chunk_exhaustive, djobs, chunksize=1)
+        r3 = pool.map_async(chunk_random, rjobs, chunksize=1)
+        r4 = pool.map_async(chunk_random, mjobs, chunksize=1)
+        r5 = pool.map_async(chunk_bubbling, bjobs, chunksize=1)
+        ex = r1.get()
+        n_tree = sum(st.get('compared', 0) for st, _ in ex)
+        absorb(ex)
+        dd = r2.get()
+        n_dedup = sum(st.get('compared', 0) for st, _ in dd)
+        absorb(dd)
+        rr = r3.get()
+        n_rand = sum(st.get('compared', 0) for st, _ in rr)
+        absorb(rr)
+        mm = r4.get()
+        n_mal = sum(st.get('compared', 0) for st, _ in mm)
+        # in the malformed stream only the correspondence is a verdict
+        for st, fs in mm:
+            stats.update({'malformed:' + k: v for k, v in st.items()
+                          if k.startswith('ev:')})
+            all_findings.extend(f for f in fs if not f[3])
+        bres = [x for chunk in r5.get() for x in chunk]
+    ck._distinct.extra += n_tree
+    ck.coverage['evaluations'] += n_tree + n_dedup + n_rand + n_mal
+    ck.coverage['traces_validated_against_impl'] += (
+        n_tree + n_dedup + n_rand + n_mal)
+    ck.coverage['exhaustive'] = True
+    ck.coverage['exhaustive_space'] = (
+        f'all well-formed histories of length <= {depth} over 2 clients x 2 '
+        f'task ids x {{submit, request, status, cancel, disconnect}} x '
+        f'{{result, error, log}} for 2 mailboxes, first event canonical up '
+        f'to client/task renaming ({n_tree} history-tree nodes); plus all '
+        f'histories of length <= {ddepth} up to equality of the reached '
+        f'server state ({n_dedup} nodes)')
+    ck.coverage['random_histories'] = nrand
+    ck.coverage['events_by_kind'] = {
+        k[3:]: v for k, v in stats.items() if k.startswith('ev:')}
+    ck.coverage['request_by_task_state'] = {
+        k[3:]: v for k, v in stats.items() if k.startswith('st:')}
+    ck.coverage['malformed_stream_events'] = n_mal
+
+    # ---- error bubbling, end to end on the real nodes
+    blines, bexp = [], []
+    for o in bres:
+        if 'harness_error' in o:
+            raise InfraError('bubbling harness: ' + o['harness_error'])
+        ck.count(('bubble', o['nmanagers'], o['depth'], o['how'], o['exc'],
+                  o.get('ok_result'), o['transitions']))
+        ck.bump('bubbling_outcomes', o['outcome'])
+        key = {'nmanagers': o['nmanagers'], 'depth': o['depth'],
+               'how': o['how'], 'exc': o['exc'], 'seed': o['seed']}
+        good = (o['outcome'] in ('raised', 'raised-early')
+                and o.get('carries') and not o['hung']
+                and o['server_running'] and o['server_errors'] == 0)
+        if not good:
+            what = ('hang' if o['hung'] else
+                    'returned-a-value' if o['outcome'] == 'returned' else
+                    'message-lost' if not o.get('carries') else
+                    'server-damaged')
+            all_findings.append((
+                f'bubbling:{what}:depth{o["depth"]}:{o["how"]}',
+                f'exception {o["exc"]}({o["msg"]!r}) raised {o["depth"]} '
+                f'levels below the root task with {o["nmanagers"]} manager(s)'
+                f': client saw {o}', {'case': key, 'observed': o}, True))
+        es = [e for e in o['errors_at_server'] if e[0] == o['mailbox']]
+        blines.append(f'bubble {o["mailbox"]} {o["depth"]} {o["hops"]} 0 '
+                      f'{1 if o["exc"] == "RuntimeError" else 0} 9')
+        bexp.append((f'error {o["mailbox"]} 9' if es and es[0][1]
+                     else f'impl:{o["errors_at_server"]}', key))
+    for line, got in swallow_cases():
+        blines.append(line)
+        bexp.append((got, {'case': line}))
+    ck.sample(bres[0])
+    ck.sample(bres[-1])
+
+    # ---- client side
+    clines, cimpl, cfind, cstats = client_checks(ck.rng, thorough)
+    for f in cfind:
+        all_findings.append((f.sig, f.what, f.replay, f.found))
+    stats.update(cstats)
+    outs = ck.driver('server', blines + clines)
+    for (exp, key), line, got in zip(bexp, blines, outs[:len(blines)]):
+        ck.count(('bubble-model', line))
+        if exp != got:
+            all_findings.append((
+                'correspondence:bubble',
+                f'error path worker->manager->server: model says `{got}` for '
+                f'`{line}`, the real nodes produced `{exp}`',
+                {'case': key, 'broken': 'correspondence error path'}, False))
+    for line, a, b in zip(clines, cimpl, outs[len(blines):]):
+        ck.count(('recv', line))
+        if a != b:
+            all_findings.append((
+                'correspondence:client-recv',
+                f'_recv_handle_log_error: model `{b}` vs real `{a}` on '
+                f'`{line}`', {'sequence': line,
+                              'broken': 'correspondence client recv'}, False))
+    ck.coverage['client_side'] = dict(cstats)
+
+    # ---- attached server
+    afind, astats = attached_checks()
+    for f in afind:
+        all_findings.append((f.sig, f.what, f.replay, f.found))
+    ck.coverage['attached_events'] = astats['attached_events']
+    ck.coverage['evaluations'] += astats['attached_events']
+
+    # ---- verdicts
+    seen = set()
+    for sig, what, replay, found in all_findings:
+        if sig in seen:
+            continue
+        seen.add(sig)
+        if drift and 'AttributeError' in sig:
+            raise InfraError(
+                'the constructors create attributes the harness does not '
+                f'fill: {drift}')
+        ck.violation(sig, what, replay, found_input=found)
+    ck.coverage['finding_signatures_seen'] = sorted(seen)
+    ck.sample({'history': ['connect 0', 'submit 0 0', 'request 0 0',
+                           'result 0 7'],
+               'replies': ['', '', '', 'R.0.7']})
+    if not proved:
+        ck.violation(
+            'proof-obligation', 'Lean obligations of Props/C13 do not check: '
+            + (ck.proof_failure or '')[:400],
+            {'broken': 'BqVerif.Props.C13', 'log': ck.proof_failure},
+            found_input=False)
+    ck.coverage['rule'] = (
+        'one evaluation = one event delivered to the real DetachedServer '
+        'through the real run loop, with replies, the five tables, running '
+        'and closed connections compared with the Lean model and the replies '
+        'compared with an independent automaton; distinct = distinct '
+        'histories (nodes of the exhaustive history tree) plus distinct '
+        'bubbling / client cases; every counted case exercises a handler')
+    ck.assumptions += [
+        'atomicity: one handler runs at a time (server handlers run on one '
+        'thread); the outgoing thread is modelled as "drained after each '
+        'handler" - its race with conn.close() is outside the model',
+        'connections, uuids and message texts are abstracted to naturals '
+        '(first-seen canonicalisation); schedule_tasks/broadcast abstracted '
+        'to downSubmit/downCancel (C15)',
+        'OS level (sockets, EOF delivery, BrokenPipeError in the outgoing '
+        'thread) is not modelled: see design_notes/C13.md',
+        'error bubbling: flat and 1-level manager topologies driven end to '
+        'end; deeper manager trees by the induction throughManagers only',
+    ]
